@@ -32,7 +32,7 @@ KIND = 13
 IMPL = ('c15', 'impl_c15')
 COUNTS = dict(quick=3600, thorough=36000)
 NFLAGS = 6
-NINDEP = 8
+NINDEP = 9
 CLASSES = ['Machine', 'GraphMachine', 'HierarchicalMachine', 'HierarchicalGraphMachine',
            'LockedMachine', 'LockedGraphMachine', 'LockedHierarchicalMachine', 'LockedHierarchicalGraphMachine',
            'AsyncMachine', 'AsyncGraphMachine', 'HierarchicalAsyncMachine', 'HierarchicalAsyncGraphMachine']
@@ -42,6 +42,9 @@ RULE = ('case i uses predefined class i mod 12 (graph classes with the Mermaid b
         'callbacks given by NAME and resolved on picklable module-level model classes (condition outcomes from a '
         'per-model table, a few raising callbacks), queued False/True/"model" (async); 1-3 models or the machine as '
         'its own model plus 0-2 more, 8% of the cases with unhashable models, locked classes with per-model contexts '
+        '[prefix also reconfigures the machine BEFORE the snapshot: remove_transition with source/dest filters (partial '
+        'and complete), add_transition to old and new events with named conditions, add_states; 10% of the copies are '
+        'made by copy.deepcopy instead of pickle; at the end both machines must pickle again] '
         'and default PicklableLock or a recording user context as machine_context; prefix = add_model / remove_model '
         '/ events (trigger, may_trigger, event method); snapshot = pickle.loads(pickle.dumps(machine)), in 1/4 of '
         'the locked cases taken while the machine lock is held, in 30% of the cases entered through a model '
@@ -228,6 +231,49 @@ def gen(rng, i, tier):
         models.append(dict(tag=t, hashable=not (unhash and rng.random() < 0.7) or (selfmodel and t == 0),
                            ctx=bool(locked and 'Graph' not in cname and rng.random() < 0.5 and not (selfmodel and t == 0))))
         return t
+    # names of the declared states and of the global-scope events with their (source, dest) pairs
+    if shape == 'hsm':
+        state_names = [hsm.sname(p) for p, _ in hsm.all_defs(machine)]
+        event_specs = [('e%d' % e, [(hsm.sname(t['src']), None if t['dst'] is None else hsm.sname(t['dst'])) for t in ts])
+                       for e, ts in machine['events']]
+    else:
+        state_names = ['s%d' % st for st, _ in machine['states']]
+        event_specs = [('e%d' % e, [('s%d' % t['src'], None if t['dst'] is None else 's%d' % t['dst']) for t in ts])
+                       for e, ts in machine['events']]
+    counters = dict(nz=0, nt=0)
+
+    def rmt():
+        """remove_transition with source / dest filters: partial (the trigger stays alive) and complete removals"""
+        if not event_specs:
+            return ['rmt', 'e0', None, None]
+        ename, pairs = rng.choice(event_specs)
+        srcs = sorted({a for a, _ in pairs})
+        dsts = sorted({b for _, b in pairs if b})
+        x = rng.random()
+        if x < 0.45 and srcs:
+            return ['rmt', ename, rng.choice(srcs), None]
+        if x < 0.62 and dsts:
+            return ['rmt', ename, None, rng.choice(dsts)]
+        if x < 0.76 and pairs:
+            a, b = rng.choice(pairs)
+            return ['rmt', ename, a, b]
+        if x < 0.88:
+            return ['rmt', ename, rng.choice(state_names), None]
+        return ['rmt', ename, None, None]
+
+    def addt():
+        """add_transition after construction: to an existing event or a new one, optionally with a named condition"""
+        if event_specs and rng.random() < 0.6:
+            ename = rng.choice(event_specs)[0]
+        else:
+            ename = 'en%d' % counters['nt']
+            counters['nt'] += 1
+        cond = rng.randint(1, max(1, ncb)) if rng.random() < 0.3 else None
+        return ['addt', ename, rng.choice(state_names), rng.choice(state_names), cond]
+
+    def addst():
+        counters['nz'] += 1
+        return ['addst', counters['nz'] - 1]
     prefix = []
     live = []
     if selfmodel:
@@ -240,31 +286,40 @@ def gen(rng, i, tier):
     def ev():
         return ['ev', rng.choice(live), rng.choice([0, 0, 0, 1, 2]) if shape == 'flat' else rng.choice([0, 0, 1]),
                 rng.randrange(nev) if rng.random() < 0.93 else nev + 2]
-    for _ in range(rng.randint(0, 7)):
+    for _ in range(rng.randint(0, 8)):
         x = rng.random()
-        if x < 0.12 and len(models) < 5:
+        if x < 0.10 and len(models) < 5:
             t = new_model()
             prefix.append(['add', t])
             live.append(t)
-        elif x < 0.22 and len(live) > 1:
+        elif x < 0.18 and len(live) > 1:
             cand = [t for t in live if not (selfmodel and t == 0)]
             t = rng.choice(cand)
             live.remove(t)
             prefix.append(['rm', t])
+        elif x < 0.31:
+            prefix.append(rmt())         # the machine is reconfigured BEFORE it is pickled
+        elif x < 0.39:
+            prefix.append(addt())
+        elif x < 0.44:
+            prefix.append(addst())
+        elif x < 0.48 and counters['nz']:
+            prefix.append(['evz', rng.choice(live), rng.randrange(counters['nz'])])
         else:
             prefix.append(ev())
+    # how the copy is made: pickle round trip, or copy.deepcopy (the same __reduce_ex__ / __getstate__ protocol)
+    how = 'deepcopy' if rng.random() < 0.1 else 'pickle'
     # where unpickling enters: the machine, or one of its models (pickle.dumps(model) reaches the machine through
     # the model's trigger partials), optionally wrapped as (model, machine)
     entry, wrap = None, False
     if rng.random() < 0.3:
         t = rng.choice(live)
-        if not (selfmodel and t == 0):
+        if not (selfmodel and t == 0) and how == 'pickle':
             entry, wrap = t, rng.random() < 0.3
     # continuation on BOTH machines: events and reconfiguration (add_model of a further model, remove_model and
     # a trigger through the removed model's stale helper, add_states / add_transition and the new event)
     cont = []
     removed = []
-    nz = 0
     for _ in range(rng.randint(1, 7)):
         x = rng.random()
         if x < 0.13 and len(models) < 7:
@@ -278,11 +333,14 @@ def gen(rng, i, tier):
             cont.append(['rmm', t])
         elif x < 0.32 and removed:
             cont.append(['stale', rng.choice(removed), rng.randrange(nev)])
-        elif x < 0.40:
-            cont.append(['addst', nz])
-            nz += 1
-        elif x < 0.48 and nz:
-            cont.append(['evz', rng.choice(live), rng.randrange(nz)])
+        elif x < 0.39:
+            cont.append(addst())
+        elif x < 0.45 and counters['nz']:
+            cont.append(['evz', rng.choice(live), rng.randrange(counters['nz'])])
+        elif x < 0.53:
+            cont.append(rmt())
+        elif x < 0.59:
+            cont.append(addt())
         else:
             cont.append(ev())
     diva = [ev() for _ in range(rng.randint(1, 3))]
@@ -290,7 +348,7 @@ def gen(rng, i, tier):
     return dict(cls=cname, shape=shape, machine=machine, env=env, init=g['init'], raises=raises, qmode=qmode,
                 selfmodel=selfmodel, userctx=userctx, models=models, prefix=prefix,
                 hold=bool(locked and not userctx and rng.random() < 0.25), cont=cont, diva=diva, divb=divb,
-                entry=entry, wrap=wrap)
+                entry=entry, wrap=wrap, how=how)
 
 
 # ====================================================================== encoding for the model
@@ -392,6 +450,11 @@ class Side(object):
             if mod is None:
                 return [2, 'no-model']
             return self.call(lambda: mod.trigger('ez%d' % op[2]))
+        if k == 'rmt':
+            return self.call(lambda: self.m.remove_transition(op[1], source=op[2] or '*', dest=op[3] or '*'))
+        if k == 'addt':
+            cond = None if op[4] is None else ['cb_%d' % op[4]]
+            return self.call(lambda: self.m.add_transition(op[1], op[2], op[3], conditions=cond))
         return [2, 'unknown-op']
 
     def models(self):
@@ -603,6 +666,7 @@ def _impl_c15(case):
     graph, nested, locked, is_async = _flags(case)
     machine, journal = _build(case)
     A = Side(case, machine)
+    A.journal_obj = journal
     hooks = _hooks_code(type(machine))
     # ---------------------------------------------------------------- prefix
     keep_alive = []
@@ -625,20 +689,26 @@ def _impl_c15(case):
             except BaseException:  # noqa
                 pass
         else:
-            A.event(op)
+            A.step(op)
     # ---------------------------------------------------------------- snapshot
     entry = case.get('entry')
     ent = A.by_tag(entry) if entry is not None else None
     target = machine if ent is None else ((ent, machine) if case.get('wrap') else ent)
+    def round_trip(obj):
+        if case.get('how') == 'deepcopy':
+            return copy.deepcopy(obj)
+        return pickle.loads(pickle.dumps(obj))
     try:
         if case['hold'] and locked:
             with machine.machine_context[0]:
                 data = pickle.dumps(target)
+                loaded = copy.deepcopy(target) if case.get('how') == 'deepcopy' else None
+            if loaded is None:
+                loaded = pickle.loads(data)
         else:
-            data = pickle.dumps(target)
-        loaded = pickle.loads(data)
-    except TypeError:
-        return [1, hooks, [0]]
+            loaded = round_trip(target)
+    except Exception as e:  # noqa  every reachable machine must pickle (C15_pickles_always)
+        return [1, hooks, [0], type(e).__name__]
     entry_ok = True
     if ent is None:
         machine2 = loaded
@@ -752,6 +822,12 @@ def _impl_c15(case):
     after = [B.full(), list(getattr(machine2, 'model_context_map', {}).keys()),
              list(getattr(machine2, 'model_graphs', {}).keys()), _qkeys(machine2)]
     indep[7] = before == after and all(x is not extra for x in machine2.models) and any(x is extra for x in machine.models)
+    try:          # after everything that happened to them both machines still pickle
+        again1, again2 = round_trip(machine), round_trip(machine2)
+        indep[8] = (len(again1.models) == len(machine.models) and len(again2.models) == len(machine2.models))
+    except Exception as e:  # noqa
+        indep[8] = False
+        detail.append(['pickle-again', type(e).__name__, str(e)[:200]])
     out = [1, hooks, [1, rekey, [rows, indep]]]
     if detail and not (all(all(r) for r in rows) and all(indep)):
         out.append(json.loads(json.dumps(detail[:3], default=str)))
@@ -807,7 +883,7 @@ def failing_clauses(case, obs):
         return ['undecodable']
     pick = obs[2]
     if pick[0] == 0:
-        return ['pickling raised TypeError']        # no class may do that any more (3c0ca68)
+        return ['pickling (or deep-copying) the machine raised an exception']
     if pick[0] == 2:
         return ['an operation on the original or the copy never returned (deadlock)']
     rekey = pick[1]
@@ -855,7 +931,8 @@ def failing_clauses(case, obs):
         inames = ['operations on the original changed the copy', 'operations on the copy changed the original',
                   'added states/events visible on the other machine', 'shared State/Event objects or a callback saw the other machine',
                   'lock held on the original blocks the copy', 'lock held on the copy blocks the original',
-                  'locks of the two machines are one object', 'add_model on the original changed the copy']
+                  'locks of the two machines are one object', 'add_model on the original changed the copy',
+                  'original or copy cannot be pickled again after the continuation']
         for j, f in enumerate(indep):
             if not f:
                 out.append('independence: ' + inames[j])
@@ -939,6 +1016,13 @@ def stats(case, obs, dist):
     for op in case['cont']:
         if op[0] != 'ev':
             inc('continuation_' + op[0])
+    for op in case['prefix']:
+        if op[0] in ('rmt', 'addt', 'addst', 'evz'):
+            inc('before_snapshot_' + op[0])
+    if any(op[0] == 'rmt' and (op[2] or op[3]) for op in case['prefix']):
+        inc('snapshot_after_filtered_remove_transition')
+    if case.get('how') == 'deepcopy':
+        inc('copy_by_deepcopy')
     if isinstance(obs, list) and len(obs) >= 3 and obs[2][:1] == [0]:
         inc('pickling_raised')
 
